@@ -25,7 +25,8 @@ def spec(chk):
                  random=100 if q else 1000),
         ],
         mech_invs=MECH_INVS, mech_props=[], abs_invs=ABS_INVS, abs_props=ABS_PROPS,
-        devs={"a": dict(acts=[]), "c": dict(acts=["Misuse"]), "gsw": dict(acts=["SetPk", "Get"]), "kswx": dict(acts=["SetPk", "Sp", "Expunge"])},
+        devs={"a": dict(acts=[]), "c": dict(acts=["Misuse"]), "gsw": dict(acts=["SetPk", "Get"]), "kswx": dict(acts=["SetPk", "Sp", "Expunge"]),
+              "rsw2": dict(acts=["SetPk"], objs=3, depth=8)},
         footprint=FOOTPRINT,
         nontrivial=lambda frm, act: act["a"] in ("Get", "Refresh", "SetPk", "Expunge") or (act["a"] in ("Flush", "Commit") and bool(act["ev"])),
     )
